@@ -556,7 +556,11 @@ package sftp
 //@   loop 1 invariant attr(errCh, lo) == attr(workCh, lo)
 
 //@ func (*File).Sync
-//@   property C20
+//@   update after call (*Client).HasExtension#1: ghost.syncOK = ret1 && ret0 == "1"
+//@   assert before call (*Client).nextID#1: ghost.syncOK
+//@   assert before call (*clientConn).sendPacket#1: ghost.syncOK && typeis(arg3, *sshFxpFsyncPacket) && arg3.(*sshFxpFsyncPacket).Handle == f.handle && arg3.(*sshFxpFsyncPacket).ID == id
+// (C19: an fsync request is sent only to a server that advertised fsync@openssh.com with version "1")
+//@   property C20, C19, C12
 //@   requires fileOK(f) && f.c.ext != nil
 
 // ---------------------------------------------------------------------------
@@ -1157,6 +1161,8 @@ package sftp
 //@   assert before send pktChan#1: pkt != nil && (err == nil || isErr(err, errUnknownExtendedPacket))
 
 //@ func (*RequestServer).serveLoop
+//@   ensures ghost.rxOK - ghost.fwd == old(ghost.rxOK) - old(ghost.fwd)
+// (also on the way out: a packet that names an unknown extension is forwarded, not taken for a malformed one)
 //@   loop 1 ghost rxOrder
 //@   update before call (*conn).recvPacket#1: ghost.rxOrder = arg1
 //@   assert before send pktChan#1: arg1.orderid == ghost.rxOrder
@@ -2294,6 +2300,7 @@ package sftp
 //@   modifies nothing
 
 //@ ghost var wfail bool
+//@ ghost var syncOK bool
 //@ ghost var fstN int
 //@ ghost var lkHeld bool
 //@ ghost var wroteIt bool
